@@ -2053,6 +2053,12 @@ func (r Stack) Reveal() Stack {
 reveal is a private method called by [Stack.Reveal].
 */
 func (r *stack) reveal() (err error) {
+	// the recursion arrives here for nested stacks too:
+	// a read-only one must not be restructured.
+	if r.positive(ronly) {
+		return
+	}
+
 	r.lock()
 	defer r.unlock()
 
